@@ -84,10 +84,15 @@ type ids struct {
 	W0, A0, R0        b6.FeatureID
 	Q, W1, A1, R1, C1 b6.FeatureID
 	Missing, MissingW b6.FeatureID
-	BadPath           b6.FeatureID // path-typed ID given to add-point
-	Geo0, Geo1, GeoA  b6.FeatureID // import-geojson IDs
-	Access            b6.FeatureID // the path `connect` adds
-	Universe          []b6.FeatureID
+	// a base collection; overlay-only path/area/relation/collection (pre-state
+	// "overlay-features+modified-tags"); absent area/relation/collection
+	C0                           b6.FeatureID
+	W2, A2, R2, C2               b6.FeatureID
+	MissingA, MissingR, MissingC b6.FeatureID
+	BadPath                      b6.FeatureID // path-typed ID given to add-point
+	Geo0, Geo1, GeoA             b6.FeatureID // import-geojson IDs
+	Access                       b6.FeatureID // the path `connect` adds
+	Universe                     []b6.FeatureID
 }
 
 const geoNS = "diagonal.works/test/geo"
@@ -100,7 +105,10 @@ func idsFor(s wk.IDScheme) ids {
 	for i := range x.P {
 		x.P[i] = s.P(i)
 	}
+	x.C0, x.W2, x.A2, x.R2, x.C2 = s.C(0), s.W(2), s.A(2), s.R(2), s.C(2)
+	x.MissingA, x.MissingR, x.MissingC = wk.AreaID(s.AreaNS, s.Base+52*s.Stride), wk.RelationID(s.RelNS, s.Base+53*s.Stride), wk.CollectionID(s.CollNS, s.Base+54*s.Stride)
 	x.Universe = []b6.FeatureID{x.P[0], x.P[1], x.P[2], x.P[3], x.W0, x.A0, x.R0, x.Q, x.W1, x.A1, x.R1, x.C1, x.Missing, x.MissingW, x.BadPath, x.Geo0, x.Geo1, wk.PathID(geoNS, 1), x.GeoA, x.Access}
+	x.Universe = append(x.Universe, x.C0, x.W2, x.A2, x.R2, x.C2, x.MissingA, x.MissingR, x.MissingC)
 	// import-geojson numbers the features of a collection by position: every
 	// ID a collection of <= 3 entries can create
 	for i := uint64(0); i < 3; i++ {
@@ -119,13 +127,14 @@ func idsFor(s wk.IDScheme) ids {
 
 func baseSpec(x ids) wk.Spec {
 	return wk.Spec{
-		{ID: x.P[0], Kind: wk.KPoint, LL: wk.G(0, 0), Tags: []wk.TagSpec{{"#amenity", "cafe"}}},
+		{ID: x.P[0], Kind: wk.KPoint, LL: wk.G(0, 0), Tags: []wk.TagSpec{{"#amenity", "cafe"}, {"name", "p0"}}},
 		{ID: x.P[1], Kind: wk.KPoint, LL: wk.G(0, 2), Tags: []wk.TagSpec{{"name", "two"}, {"@flag", "yes"}}},
 		{ID: x.P[2], Kind: wk.KPoint, LL: wk.G(2, 2), Tags: []wk.TagSpec{{"#amenity", "bench"}}},
 		{ID: x.P[3], Kind: wk.KPoint, LL: wk.G(2, 0)},
-		{ID: x.W0, Kind: wk.KPath, Path: wk.Refs(x.P[0], x.P[1], x.P[2], x.P[3], x.P[0]), Tags: []wk.TagSpec{{"#highway", "path"}}},
-		{ID: x.A0, Kind: wk.KArea, Polys: []wk.PolySpec{{Paths: []b6.FeatureID{x.W0}}}, Tags: []wk.TagSpec{{"#building", "yes"}}},
-		{ID: x.R0, Kind: wk.KRelation, Members: []wk.MemberSpec{{x.P[0], "stop"}, {x.W0, ""}}, Tags: []wk.TagSpec{{"#route", "bus"}}},
+		{ID: x.W0, Kind: wk.KPath, Path: wk.Refs(x.P[0], x.P[1], x.P[2], x.P[3], x.P[0]), Tags: []wk.TagSpec{{"#highway", "path"}, {"name", "w0"}}},
+		{ID: x.A0, Kind: wk.KArea, Polys: []wk.PolySpec{{Paths: []b6.FeatureID{x.W0}}}, Tags: []wk.TagSpec{{"#building", "yes"}, {"name", "a0"}}},
+		{ID: x.R0, Kind: wk.KRelation, Members: []wk.MemberSpec{{x.P[0], "stop"}, {x.W0, ""}}, Tags: []wk.TagSpec{{"#route", "bus"}, {"name", "r0"}}},
+		{ID: x.C0, Kind: wk.KCollection, Items: []wk.KV{{K: "id:" + x.P[0].String(), V: "s:x"}}, Tags: []wk.TagSpec{{"#kind", "base"}, {"name", "c0"}}},
 	}
 }
 
@@ -156,6 +165,9 @@ type entryDecl struct {
 	name  string
 	op    string // add-tag | remove-tag | add-feature
 	valid func(pre prestate) bool
+	// tag edits: the feature edited; the entry is declared valid iff the
+	// feature is declared present in the pre-state
+	id b6.FeatureID
 }
 
 func lit(id b6.FeatureID) string { return "/" + id.String() }
@@ -373,6 +385,8 @@ func parts(x ids) []part {
 	add(tagFile("file:tag-edits:present-id-then-absent-id", "tags-present-absent.yaml", tagDoc{x.P[1], []string{"p"}, nil}, tagDoc{x.Missing, []string{"p"}, nil}))
 	add(filePart("file:malformed", "broken.yaml", "id: [unclosed\n", x.P[0]))
 	// --- collections of 2..3 entries, each entry independently valid or failing
+	// --- a tag edit for every feature type x presence x kind of key
+	ps = append(ps, typedTagEdits(x)...)
 	ps = append(ps, multiEntryParts(x)...)
 	return ps
 }
@@ -465,7 +479,7 @@ func addTagsPart(menu []tagEntry, s []int) part {
 		names = append(names, e.name)
 		pairs = append(pairs, fmt.Sprintf("(pair %s (tag %q %q))", lit(e.id), e.key, e.val))
 		ref = append(ref, ingest.AddTag{ID: e.id, Tag: b6.Tag{Key: e.key, Value: str(e.val)}})
-		decl = append(decl, entryDecl{name: e.name, op: "add-tag", valid: e.present})
+		decl = append(decl, entryDecl{name: e.name, op: "add-tag", valid: e.present, id: e.id})
 	}
 	return part{name: "add-tags[" + strings.Join(names, ", ") + "]", kind: "tag-edit",
 		shell: sh("add-tags (collection " + strings.Join(pairs, " ") + ")"), ref: rf(ref), targets: idsOf(menu, s), entries: decl}
@@ -480,7 +494,7 @@ func removeTagsPart(menu []tagEntry, s []int) part {
 		names = append(names, e.name)
 		pairs = append(pairs, fmt.Sprintf("(pair %s %q)", lit(e.id), e.key))
 		ref = append(ref, ingest.RemoveTag{ID: e.id, Key: e.key})
-		decl = append(decl, entryDecl{name: e.name, op: "remove-tag", valid: e.present})
+		decl = append(decl, entryDecl{name: e.name, op: "remove-tag", valid: e.present, id: e.id})
 	}
 	return part{name: "remove-tags[" + strings.Join(names, ", ") + "]", kind: "tag-edit",
 		shell: sh("remove-tags (collection " + strings.Join(pairs, " ") + ")"), ref: rf(ref), targets: idsOf(menu, s), entries: decl}
@@ -512,11 +526,85 @@ func geoCollectionPart(menu []geoEntry, s []int) part {
 	return p
 }
 
+// typedTagEntries: a tag edit for every feature type x {present in the base,
+// present only in the overlay of one pre-state, absent} x {plain key,
+// searchable key}; for add (key + value) or remove (key of a tag the present
+// features have).
+func typedTagEntries(x ids, remove bool) []tagEntry {
+	type target struct {
+		typ  string
+		id   b6.FeatureID
+		skey string // a searchable key the feature has
+	}
+	var out []tagEntry
+	for _, w := range []struct {
+		where   string
+		present func(prestate) bool
+		targets []target
+	}{
+		{"base", always, []target{{"point", x.P[0], "#amenity"}, {"path", x.W0, "#highway"}, {"area", x.A0, "#building"}, {"relation", x.R0, "#route"}, {"collection", x.C0, "#kind"}}},
+		{"overlay-only", whenQ, []target{{"point", x.Q, "#amenity"}, {"path", x.W2, "#kind"}, {"area", x.A2, "#kind"}, {"relation", x.R2, "#kind"}, {"collection", x.C2, "#kind"}}},
+		{"absent", never, []target{{"point", x.Missing, "#kind"}, {"path", x.MissingW, "#kind"}, {"area", x.MissingA, "#kind"}, {"relation", x.MissingR, "#kind"}, {"collection", x.MissingC, "#kind"}}},
+	} {
+		for _, t := range w.targets {
+			for _, searchable := range []bool{false, true} {
+				e := tagEntry{id: t.id, present: w.present}
+				switch {
+				case !remove && !searchable:
+					e.name, e.key, e.val = t.typ+":"+w.where+":plain-key", "note", "n"
+				case !remove && searchable:
+					e.name, e.key, e.val = t.typ+":"+w.where+":searchable-key", "#mark", "m"
+				case remove && !searchable:
+					e.name, e.key = t.typ+":"+w.where+":plain-key", "name"
+				default:
+					e.name, e.key = t.typ+":"+w.where+":searchable-key", t.skey
+				}
+				out = append(out, e)
+			}
+		}
+	}
+	return out
+}
+
+// typedTagEdits: add-tag and remove-tag for every entry of typedTagEntries.
+func typedTagEdits(x ids) []part {
+	var ps []part
+	for _, e := range typedTagEntries(x, false) {
+		ps = append(ps, part{name: "add-tag:" + e.name, kind: "tag-edit",
+			shell: sh(fmt.Sprintf("add-tag %s (tag %q %q)", lit(e.id), e.key, e.val)), ref: rf(ingest.AddTags{{ID: e.id, Tag: b6.Tag{Key: e.key, Value: str(e.val)}}}),
+			targets: []b6.FeatureID{e.id}, entries: []entryDecl{{name: e.name, op: "add-tag", valid: e.present, id: e.id}}})
+	}
+	for _, e := range typedTagEntries(x, true) {
+		ps = append(ps, part{name: "remove-tag:" + e.name, kind: "tag-edit",
+			shell: sh(fmt.Sprintf("remove-tag %s %q", lit(e.id), e.key)), ref: rf(ingest.RemoveTags{{ID: e.id, Key: e.key}}),
+			targets: []b6.FeatureID{e.id}, entries: []entryDecl{{name: e.name, op: "remove-tag", valid: e.present, id: e.id}}})
+	}
+	return ps
+}
+
+// typedTagPairs: add-tags / remove-tags of two entries, an always valid one on
+// a base point and an entry of typedTagEntries, in both orders.
+func typedTagPairs(x ids) []part {
+	var ps []part
+	for _, e := range typedTagEntries(x, false) {
+		menu := []tagEntry{{"P1:p", x.P[1], "p", "x", always}, e}
+		ps = append(ps, addTagsPart(menu, []int{0, 1}), addTagsPart(menu, []int{1, 0}))
+	}
+	for _, e := range typedTagEntries(x, true) {
+		menu := []tagEntry{{"P1:name", x.P[1], "name", "", always}, e}
+		ps = append(ps, removeTagsPart(menu, []int{0, 1}), removeTagsPart(menu, []int{1, 0}))
+	}
+	return ps
+}
+
 func multiEntryParts(x ids) []part {
 	var ps []part
 	am, rm, gm := addTagsMenu(x), removeTagsMenu(x), geoMenu()
 	// shorter collections first within each family
 	for l := minEntries; l <= maxEntries; l++ {
+		if l == 2 {
+			ps = append(ps, typedTagPairs(x)...)
+		}
 		for _, s := range sequences(len(am), l, l) {
 			ps = append(ps, addTagsPart(am, s))
 		}
@@ -538,7 +626,9 @@ var mergeMenu = []string{"add-tag:searchable:base-point", "add-tag:plain:base-po
 	// (add-point:new-tagged) or the pre-state has added its feature
 	"add-tags[P0:p, P1:#s]", "add-tags[absent-point:p, P0:p]", "add-tags[P0:p, absent-point:p]", "add-tags[P0:p, absent-point:p, P1:#s]", "add-tags[Q:p, P0:p]",
 	"remove-tags[absent-point:p, P0:#amenity]", "remove-tags[P0:#amenity, absent-point:p]",
-	"import-geojson[line-of-1-point, point]", "import-geojson[point, line-of-1-point]"}
+	"import-geojson[line-of-1-point, point]", "import-geojson[point, line-of-1-point]",
+	// a plain tag on a path that does not exist
+	"add-tag:path:absent:plain-key"}
 
 type change struct {
 	name   string
@@ -641,15 +731,27 @@ func changes(x ids, maxMerge int) []change {
 
 type prestate struct {
 	name  string
-	hasQ  bool // the pre-state contains the point x.Q (absent from the base)
+	hasQ  bool // the pre-state contains the overlay-only features (x.Q, x.W2, x.A2, x.R2, x.C2), absent from the base
 	apply func(x ids, w ingest.MutableWorld) error
 }
 
 var prestates = []prestate{
 	{"fresh", false, func(ids, ingest.MutableWorld) error { return nil }},
-	{"overlay-point+modified-tags", true, func(x ids, w ingest.MutableWorld) error {
-		if _, err := addFeatures(pointFeature(x.Q, s2.LatLngFromDegrees(51.5356, -0.1244), b6.Tag{Key: "#amenity", Value: str("bar")})).Apply(w); err != nil {
+	{"overlay-features+modified-tags", true, func(x ids, w ingest.MutableWorld) error {
+		if _, err := addFeatures(pointFeature(x.Q, s2.LatLngFromDegrees(51.5356, -0.1244), b6.Tag{Key: "#amenity", Value: str("bar")}, b6.Tag{Key: "name", Value: str("q")})).Apply(w); err != nil {
 			return err
+		}
+		// a feature of every other type that only the overlay has
+		tags := []wk.TagSpec{{"#kind", "overlay"}, {"name", "o"}}
+		for _, f := range []wk.FSpec{
+			{ID: x.W2, Kind: wk.KPath, Path: wk.Refs(x.P[0], x.P[2]), Tags: tags}, // not P1-P3: `connect` is asked to join those
+			{ID: x.A2, Kind: wk.KArea, Polys: []wk.PolySpec{{Paths: []b6.FeatureID{x.W0}}}, Tags: tags},
+			{ID: x.R2, Kind: wk.KRelation, Members: []wk.MemberSpec{{x.P[1], "stop"}}, Tags: tags},
+			{ID: x.C2, Kind: wk.KCollection, Items: []wk.KV{{K: "id:" + x.P[1].String(), V: "s:y"}}, Tags: tags},
+		} {
+			if err := w.AddFeature(f.Feature()); err != nil {
+				return err
+			}
 		}
 		_, err := ingest.AddTags{{ID: x.P[2], Tag: b6.Tag{Key: "note", Value: str("n")}}, {ID: x.W0, Tag: b6.Tag{Key: "#s", Value: str("w")}}}.Apply(w)
 		return err
@@ -1028,6 +1130,15 @@ func (e *env) run(cd caseDef) kit.Result {
 		r.Violate("harness:prestate", "%s: %v", pre.name, err)
 		return r
 	}
+	// the declared presence of the features the entries edit, against the pre-state
+	if !ch.merged {
+		for _, d := range ch.parts[0].entries {
+			if d.id.IsValid() && (live.FindFeatureByID(d.id) != nil) != d.valid(pre) {
+				r.Violate("harness:declared-presence-disagrees-with-FindFeatureByID-on-the-pre-state", "%s\n%s: declared present %v", desc, d.id, d.valid(pre))
+				return r
+			}
+		}
+	}
 	before := e.dump(live)
 	if d := wk.Diff(before, e.dump(ref), true); len(d) > 0 {
 		r.Violate("harness:prestates-differ", "%s\n%s", desc, strings.Join(d, "\n"))
@@ -1074,6 +1185,8 @@ func (e *env) run(cd caseDef) kit.Result {
 	ops, modelled := ch.ops(dir)
 	failAt := -1
 	var failErr error
+	absentTarget := false // the failing entry is a tag edit of a feature absent from the world
+	var absentOpErr error // what the world's own operation returned for it
 	var modelAfter wk.Dump
 	if modelled {
 		model := ingest.NewMutableOverlayWorld(e.base)
@@ -1083,7 +1196,16 @@ func (e *env) run(cd caseDef) kit.Result {
 		}
 		if cls, msg := kit.Catch(func() {
 			for i, o := range ops {
-				if err := o.do(model); err != nil {
+				// a tag edit of a feature that is not in the world at that
+				// point fails, whatever the world's operation says about it
+				absent := (o.kind == "add-tag" || o.kind == "remove-tag") && model.FindFeatureByID(o.id) == nil
+				err := o.do(model)
+				if absent {
+					failAt, absentTarget, absentOpErr = i, true, err
+					failErr = fmt.Errorf("no feature %s in the world (FindFeatureByID returns nil); MutableWorld.%s on it returns: %v", o.id, map[string]string{"add-tag": "AddTag", "remove-tag": "RemoveTag"}[o.kind], err)
+					break
+				}
+				if err != nil {
 					failAt, failErr = i, err
 					break
 				}
@@ -1091,6 +1213,9 @@ func (e *env) run(cd caseDef) kit.Result {
 		}); cls != "" {
 			r.Violate("entrywise-application:"+cls, "%s\n%s", desc, msg)
 			return r
+		}
+		if absentTarget && absentOpErr == nil {
+			r.Count("world-operation-accepts-a-tag-edit-of-an-absent-feature:"+ops[failAt].kind+":"+ops[failAt].id.Type.String(), 1)
 		}
 		if failAt < 0 {
 			modelAfter = e.dump(model)
@@ -1156,6 +1281,10 @@ func (e *env) run(cd caseDef) kit.Result {
 		fails = failAt >= 0
 	}
 	switch {
+	case fails && got.err == nil && absentTarget:
+		r.Violate(fmt.Sprintf("%s:success-reported-for-an-edit-of-an-absent-feature:%s:%s:%s:%s", evaluator, ch.kind, ops[failAt].kind, ops[failAt].id.Type, ops[failAt].pos()),
+			"%s\n%s: %v\nthe response reports no error (result %s, ids %s); Change.Apply of the identical change on an identical fresh world: error %v, ids %s; world changed by the evaluation: %v",
+			desc, ops[failAt], failErr, got.typ, idSet(got.ids), refErr, idSet(refIDs), changed)
 	case fails && got.err == nil && refErr != nil:
 		r.Violate(fmt.Sprintf("%s:no-error-reported-though-apply-fails:%s", evaluator, ch.kind),
 			"%s\nChange.Apply on an identical fresh world fails: %v\nthe response reports no error (result %s, ids %s); world changed by the evaluation: %v", desc, refErr, got.typ, idSet(got.ids), changed)
@@ -1357,14 +1486,15 @@ type caseDef struct {
 func main() {
 	kit.Main(&kit.Check{
 		ID: "C26", Level: "exploration",
-		Rule: "every change of the menu: (a) single changes: 15 tag edits on present/absent IDs; 14 feature additions via add-point/add-relation/add-collection/import-geojson/connect incl. failing ones; 12 change files incl. path over a missing point, area over an open path, area over a missing path, malformed file, and 5 files of tag-edit documents (add/remove lists) on a present ID, an absent ID, absent then present, present then absent; " +
+		Rule: "every change of the menu: (a) single changes: 15 tag edits on present/absent IDs; 60 typed tag edits = {add-tag, remove-tag} x target of every feature type {point, path, area, relation, collection} x {present in the base, present only in the overlay (one pre-state; absent in the others), absent} x {plain key, searchable '#' key}; 14 feature additions via add-point/add-relation/add-collection/import-geojson/connect incl. failing ones; 12 change files incl. path over a missing point, area over an open path, area over a missing path, malformed file, and 5 files of tag-edit documents (add/remove lists) on a present ID, an absent ID, absent then present, present then absent; " +
 			"(b) multi-entry collections: every add-tags and every remove-tags change whose collection is a sequence (repetition allowed, every order) of 2..3 entries over a 5-entry menu {2 entries on base features (plain and searchable key), 1 entry on a point that only one pre-state contains, 2 entries on absent IDs}, and every import-geojson feature collection that is a sequence of 2..3 features over {point, line string, line string of one point (invalid), polygon} - so every pattern valid/failing x valid/failing (x valid/failing), failure first / middle / last / several; " +
-			"(c) every merge-changes sequence of <= M parts over a 20-part menu of succeeding and failing parts (11 single-entry parts incl. 2 change files; 9 multi-entry parts: add-tags [valid valid], [failing valid], [valid failing], [valid failing valid], [valid-once-the-point-exists valid], remove-tags [failing valid], [valid failing], import-geojson [invalid valid], [valid invalid]), and the nested form merge[merge[a], b] of every 2-part sequence; " +
+			"(b') every add-tags / remove-tags collection of 2 entries made of an always valid entry on a base point and one of the 30 typed entries of (a), in both orders (120); (c) every merge-changes sequence of <= M parts over a 21-part menu of succeeding and failing parts (12 single-entry parts incl. 2 change files and a plain-key add-tag on an absent path; 9 multi-entry parts: add-tags [valid valid], [failing valid], [valid failing], [valid failing valid], [valid-once-the-point-exists valid], remove-tags [failing valid], [valid failing], import-geojson [invalid valid], [valid invalid]), and the nested form merge[merge[a], b] of every 2-part sequence; " +
 			"each x 2 world roots x {gRPC Evaluate, api.Evaluator.EvaluateExpression} x {writable server in each of 3 pre-states; read-only server (ingest.ReadOnlyWorlds)}; and inside every writable case, fault injection: the same request on an identical world where the k-th mutating call (AddFeature/AddTag/RemoveTag) made on the world fails, for every k = 1..N, N = number of mutating calls the fault-free evaluation made on the world (both evaluators get the world through a delegating ingest.Worlds/MutableWorld wrapper); ordered single changes, 2-entry collections, 3-entry collections, merges by length. Expressions are shell text parsed with api.ParseExpression. Every case is non-trivial; distinct by (evaluator, change, pre-state or read-only, root) and, for fault-injected runs, k. " +
-			"Oracle: 'applying the change failed' is decided without Change.Apply: the identical change built with ingest constructors is taken apart into its entries (merged changes flattened in order) and these are applied one by one with MutableWorld.AddTag/RemoveTag/AddFeature to an identical fresh MutableOverlayWorld in the identical pre-state; it failed iff an operation returns an error (for (b) this must also agree with the declared validity of each entry: ID present in the pre-state / line string has 2 points). The response must report an error iff applying failed (the entries of a file of tag-edit documents are written out by hand; the entries of any other change file are its documents, each ingested on its own as a one-document file). " +
+			"Oracle: 'applying the change failed' is decided without Change.Apply: the identical change built with ingest constructors is taken apart into its entries (merged changes flattened in order) and these are applied one by one with MutableWorld.AddTag/RemoveTag/AddFeature to an identical fresh MutableOverlayWorld in the identical pre-state; it failed iff an operation returns an error, or the entry is a tag edit (add-tag / remove-tag) of a feature that is not in that world at that point (FindFeatureByID returns nil) - whatever the world's AddTag / RemoveTag returns for it (for the typed tag edits and (b), (b') this must also agree with the declared validity of each entry: ID declared present in the pre-state / line string has 2 points; and the declared presence must agree with FindFeatureByID on the pre-state). The response must report an error iff applying failed (the entries of a file of tag-edit documents are written out by hand; the entries of any other change file are its documents, each ingested on its own as a one-document file). " +
 			"Read-only server: the entries applied one by one to ingest.ReadOnlyWorld fail, so an error must be reported. All world kinds: if any mutating call the evaluation made on the world returned an error (observed by the wrapper: injected fault, read-only world, or a real failure), the response must report an error. " +
 			"On success returned IDs == IDs Change.Apply reports, are targets of the change, and include every target whose existence/tags/geometry changed; evaluator's world dump == dump of the identical world after Change.Apply of the identical change, and, when no error is reported and every entry succeeds, == dump of the world with the entries applied one by one.",
 		Assumptions: []string{
+			"a tag edit of a feature that is absent from the world cannot be applied: success reported for it is a violation even if MutableWorld.AddTag / RemoveTag accept it",
 			"'applying the change failed' is read as: applying the entries of the change in order with the world's elementary operations (AddTag, RemoveTag, AddFeature), one of them returns an error; an entry of a change file with feature documents is one document, applied by ingesting it alone",
 			"a response error for a change all of whose entries succeed one by one is a violation only if Change.Apply on an identical world succeeds or the evaluator's world shows every entry applied; otherwise (Apply itself fails and the world is not the fully applied one) applying did fail and the error is due",
 			"after a failing change the evaluator's world is compared with the reference world after the same failing Apply (AddTags/AddFeatures are not atomic; atomicity is C13's subject), not with the world before",
@@ -1385,7 +1515,7 @@ func main() {
 			nSingle, nMulti := 0, 0
 			for _, c := range chs {
 				if c.kind != "merged-change" {
-					if c.parts[0].entries != nil {
+					if len(c.parts[0].entries) >= 2 {
 						nMulti++
 					} else {
 						nSingle++
@@ -1417,11 +1547,11 @@ func main() {
 							r.Violate("harness:base-build", "%v", err)
 							return r
 						}
-						atoms := []wk.RQ{{Op: "all"}, {Op: "keyed", Key: "#s"}, {Op: "keyed", Key: "#amenity"}, {Op: "keyed", Key: "#highway"}, {Op: "keyed", Key: "#route"}, {Op: "keyed", Key: "#landuse"}, {Op: "keyed", Key: "#kind"}, {Op: "tagged", Key: "#s", Val: "x"}, {Op: "tagged", Key: "#amenity", Val: "cafe"}}
+						atoms := []wk.RQ{{Op: "all"}, {Op: "keyed", Key: "#s"}, {Op: "keyed", Key: "#amenity"}, {Op: "keyed", Key: "#highway"}, {Op: "keyed", Key: "#route"}, {Op: "keyed", Key: "#landuse"}, {Op: "keyed", Key: "#kind"}, {Op: "keyed", Key: "#mark"}, {Op: "tagged", Key: "#s", Val: "x"}, {Op: "tagged", Key: "#amenity", Val: "cafe"}}
 						e = &env{x: x, base: base, changes: chs, queries: wk.NamedQueries(atoms)}
 					}
 					return e.run(cases[i])
-				}}, fmt.Sprintf("%d changes (%d single; %d collections of %d..%d entries: add-tags and remove-tags over 5-entry menus, import-geojson over a 4-feature menu, every sequence; %d merges of <= %d parts over a %d-part menu incl. nested 2-part merges) x %d roots x 2 evaluators x (%d pre-states of a writable server, each with a fault injected at every mutating call 1..N the evaluation makes on the world, + a read-only server), ID scheme %s",
+				}}, fmt.Sprintf("%d changes (%d single incl. 60 typed tag edits: add/remove x 5 feature types x base/overlay-only/absent x plain/searchable key; %d collections of %d..%d entries: add-tags and remove-tags over 5-entry menus, import-geojson over a 4-feature menu, every sequence, and 2-entry add-tags / remove-tags of a valid entry and a typed entry in both orders; %d merges of <= %d parts over a %d-part menu incl. nested 2-part merges) x %d roots x 2 evaluators x (%d pre-states of a writable server, each with a fault injected at every mutating call 1..N the evaluation makes on the world, + a read-only server), ID scheme %s",
 					len(chs), nSingle, nMulti, minEntries, maxEntries, len(chs)-nSingle-nMulti, maxMerge, len(mergeMenu), len(roots), len(prestates), sch.Name)
 		},
 	})
